@@ -274,6 +274,16 @@ def check_grid(ctx: Ctx):
     src = mod.source
     ctx.ob("C11-O6", "R18 table", f, "octile heuristic = max + (sqrt2 - 1) * min; constants derive from sqrt(2)", "max(dr, dc) + _SQRT2_MINUS_1 * min(dr, dc)" in t and "_SQRT2 = sqrt(2)" in src and "_SQRT2_MINUS_1 = _SQRT2 - 1" in src, "", node=f.node)
     ctx.ob("C11-O6", "R18 table", f, "move sets: 8 directions without (0,0); 4 directions = axis moves", "if (dx, dy) != (0, 0)" in src and "if dx == 0 or dy == 0" in src and ast.unparse(ast.parse("dirs = _DIRS_8 if directions == 8 else _DIRS_4")) in t, "", node=f.node)
+    hard = []
+    for g in [f] + list(f.children.values()):
+        for n in own_nodes(g.node):
+            if isinstance(n, ast.Name) and n.id in ("_DIRS_4", "_DIRS_8"):
+                sn = cfg_of(g.node).stmt_node_containing(n)
+                if sn is None or ast.unparse(sn.ast) != "dirs = _DIRS_8 if directions == 8 else _DIRS_4":
+                    hard.append(n)
+    ctx.ob("C11-O6", "R18 table", f, "the move-set constants are referenced only where `directions` selects one (no hard-coded neighbourhood)", not hard, f"lines {sorted({h.lineno for h in hard})}: a shortcut that scans one fixed neighbourhood is wrong in the other mode", node=hard[0] if hard else f.node)
+    own = result_sites(f)
+    ctx.ob("C11-O6", "R18 table", f, "astar_grid gives no verdict of its own: every result comes from astar on the built graph", not own, f"{len(own)} Result construction(s) in the wrapper", node=own[0].call if own else f.node)
     deleg = [n for n in own_nodes(f.node) if isinstance(n, ast.Return) and isinstance(n.value, ast.Call) and ast.unparse(n.value.func) == "astar"]
     ctx.ob("C11-O6", "R18 table", f, "grid search delegates to astar with the built neighbours, heuristic and the caller's weight", len(deleg) == 1 and [ast.unparse(a) for a in deleg[0].value.args] == ["start", "goal", "neighbors", "h"] and any(k.arg == "weight" and ast.unparse(k.value) == "weight" for k in deleg[0].value.keywords), "", node=f.node)
     ctx.note("astar_grid: an explicitly requested 'manhattan' heuristic with directions=8 (or cell costs below 1) is inadmissible and still labelled OPTIMAL; the property's quantifier ranges over grids and neighbour modes, not over heuristic names or cost maps - information only")
@@ -391,7 +401,14 @@ def _t_fw_swap_ij(tree):
     mid.target, inner.target = inner.target, mid.target
 
 
+def _v_grid_fast_fail(tree):
+    g = M.find_func(tree, "astar_grid")
+    M.replace_stmt(g, lambda s: M.src_is(s, "h_name = heuristic"), M.stmts("if start != goal and not any((0 <= gr + dr < rows and 0 <= gc + dc < cols and grid[gr + dr][gc + dc] not in blocked_set for dr, dc in _DIRS_4)):\n    return Result(None, float('inf'), 0, 0, Status.INFEASIBLE)\nh_name = heuristic"))
+
+
 VARIANTS = [
+    M.Variant("grid fast-fail scans the 4-neighbourhood in both modes (seed C11-A)", AS, _v_grid_fast_fail, "C11-O6"),
+
     M.Variant("dijkstra reports the goal when first discovered (push time)", DJ, _v_goal_on_push, "C11-O1"),
     M.Variant("dijkstra re-parents on equal distance", DJ, _v_non_strict, "C11-O1"),
     M.Variant("dijkstra heap ordered by edge cost", DJ, _v_key_edge_cost, "C11-O1"),
